@@ -66,6 +66,13 @@ type Case struct {
 	Amb int `json:"amb,omitempty"`
 	// HonourCtx makes the wrapped store refuse calls whose context is done.
 	HonourCtx bool `json:"honour_ctx,omitempty"`
+	// SubVia: how the bus learns where positions are kept.  "" = the event
+	// store (wrapper) is itself a SubscriptionStore; "option" = the event
+	// store is not, positions go through WithSubscriptionStore; "both" =
+	// WithSubscriptionStore is given AND the event store is a
+	// SubscriptionStore too (a second, unrelated position table): the
+	// explicitly configured one is the subscription store.
+	SubVia string `json:"sub_via,omitempty"`
 	Runs   []RunSpec `json:"runs"` // a final clean run subscribing every id is appended by the interpreter
 }
 
@@ -92,6 +99,8 @@ type exec struct {
 	cleanup func()
 	reopen  func() error
 	plan    *storekit.FaultPlan // SQLite file store: driver-level faults
+	subOpt  eventbus.SubscriptionStore // given to WithSubscriptionStore when SubVia is option/both
+	decoy   *eventbus.MemoryStore
 	anyCrashOrFault bool
 }
 
@@ -159,11 +168,60 @@ func (x *exec) buildWrapper() {
 	b := &storekit.Base{Inner: x.inner, SubInner: x.subIn}
 	x.base = b
 	_, canStream := x.inner.(eventbus.EventStoreStreamer)
-	if x.c.Stream && canStream {
-		x.wrap = storekit.StreamingSub{Base: b}
-	} else {
-		x.wrap = storekit.PagedSub{Base: b}
+	stream := x.c.Stream && canStream
+	x.subOpt = nil
+	switch x.c.SubVia {
+	case "option":
+		x.subOpt = storekit.SubOnly{Base: b}
+		if stream {
+			x.wrap = storekit.Streaming{Base: b}
+		} else {
+			x.wrap = storekit.Paged{Base: b}
+		}
+	case "both":
+		x.subOpt = storekit.SubOnly{Base: b}
+		if x.decoy == nil {
+			x.decoy = eventbus.NewMemoryStore()
+		}
+		if stream {
+			x.wrap = decoyStreaming{storekit.Streaming{Base: b}, x.decoy}
+		} else {
+			x.wrap = decoyPaged{storekit.Paged{Base: b}, x.decoy}
+		}
+	default:
+		if stream {
+			x.wrap = storekit.StreamingSub{Base: b}
+		} else {
+			x.wrap = storekit.PagedSub{Base: b}
+		}
 	}
+}
+
+// decoyPaged / decoyStreaming: an event store that also offers a position
+// table of its own (kept across the runs), unrelated to the one configured
+// with WithSubscriptionStore.
+type decoyPaged struct {
+	storekit.Paged
+	d *eventbus.MemoryStore
+}
+
+func (s decoyPaged) SaveOffset(ctx context.Context, id string, off eventbus.Offset) error {
+	return s.d.SaveOffset(ctx, id, off)
+}
+func (s decoyPaged) LoadOffset(ctx context.Context, id string) (eventbus.Offset, error) {
+	return s.d.LoadOffset(ctx, id)
+}
+
+type decoyStreaming struct {
+	storekit.Streaming
+	d *eventbus.MemoryStore
+}
+
+func (s decoyStreaming) SaveOffset(ctx context.Context, id string, off eventbus.Offset) error {
+	return s.d.SaveOffset(ctx, id, off)
+}
+func (s decoyStreaming) LoadOffset(ctx context.Context, id string) (eventbus.Offset, error) {
+	return s.d.LoadOffset(ctx, id)
 }
 
 func (x *exec) publish(bus *eventbus.EventBus, t int) {
@@ -276,6 +334,9 @@ func (x *exec) run(ri int, r RunSpec, final bool) {
 		return storekit.Action{}
 	})
 	opts := []eventbus.Option{eventbus.WithStore(x.wrap)}
+	if x.subOpt != nil {
+		opts = append(opts, eventbus.WithSubscriptionStore(x.subOpt))
+	}
 	if x.c.Batch > 0 {
 		opts = append(opts, eventbus.WithReplayBatchSize(x.c.Batch))
 	}
@@ -524,6 +585,9 @@ func run(c *Case) *vkit.Outcome {
 		o.Class("publish_during_subscribe_with_replay")
 	}
 	o.Class("store_" + c.Store)
+	if c.SubVia != "" {
+		o.Class("positions_through_WithSubscriptionStore_" + c.SubVia)
+	}
 	return o
 }
 
